@@ -420,6 +420,10 @@ pub struct Obs {
     /// wire offset at which the client switched to decryption
     pub enc_switch_at: Option<usize>,
     pub raw_wire: Vec<u8>,
+    /// virtual time at which each script step was emitted
+    pub step_times: Vec<Ms>,
+    /// (time, id) of every keep-alive the client sent (echoes and unsolicited ones)
+    pub echo_log: Vec<(Ms, u64)>,
 }
 
 impl Obs {
@@ -524,6 +528,8 @@ struct Shared {
     eof_at: Option<Ms>,
     reads: usize,
     steps_done: usize,
+    step_times: Vec<Ms>,
+    echo_log: Vec<(Ms, u64)>,
     // adapters
     calls: Vec<Call>,
 }
@@ -604,7 +610,7 @@ impl Shared {
                     EncKind::SecretLen(n) if *n != 16 => None,
                     _ => Some(self.secret),
                 };
-                if let Some(sec) = secret {
+                if let (Some(sec), true) = (secret, self.enc.is_none()) {
                     self.enc = Some(Cfb8::new(&sec));
                     self.dec = Some(Cfb8::new(&sec));
                     self.enc_switch_at = Some(self.wire.len());
@@ -671,12 +677,18 @@ impl Shared {
                 Sched::Script(act) => {
                     self.emit_act(&act, at);
                     self.steps_done += 1;
+                    self.step_times.push(at);
                     self.script_pending = false;
                     self.run_with_steps(at);
                 }
-                Sched::Echo(id) => self.emit_bytes(&codec::sb_keep_alive(id), at),
+                Sched::Echo(id) => {
+                    self.emit_bytes(&codec::sb_keep_alive(id), at);
+                    self.echo_log.push((at, id));
+                }
                 Sched::Unsolicited => {
-                    self.emit_bytes(&codec::sb_keep_alive(0xdead_beef_0000 + self.unsolicited_sent as u64), at);
+                    let uid = 0xdead_beef_0000 + self.unsolicited_sent as u64;
+                    self.emit_bytes(&codec::sb_keep_alive(uid), at);
+                    self.echo_log.push((at, uid));
                     self.unsolicited_sent += 1;
                     if let Some(every) = self.unsolicited_every {
                         if self.unsolicited_sent < 40 {
@@ -695,6 +707,7 @@ impl Shared {
             self.next_step += 1;
             self.emit_act(&act, g);
             self.steps_done += 1;
+            self.step_times.push(g);
         }
     }
 
@@ -710,6 +723,7 @@ impl Shared {
             When::Idle | When::With => {
                 self.emit_act(&step.act, now);
                 self.steps_done += 1;
+                self.step_times.push(now);
                 self.run_with_steps(now);
             }
             When::IdleAfter(d) => {
@@ -1208,6 +1222,8 @@ pub fn run(case: &Case) -> Obs {
         eof_at: None,
         reads: 0,
         steps_done: 0,
+        step_times: vec![],
+        echo_log: vec![],
         calls: vec![],
     }));
     let plan = Arc::new(case.adapters.clone());
@@ -1278,6 +1294,8 @@ pub fn run(case: &Case) -> Obs {
         steps_done: sh.steps_done,
         enc_switch_at: sh.enc_switch_at,
         raw_wire: sh.wire.clone(),
+        step_times: sh.step_times.clone(),
+        echo_log: sh.echo_log.clone(),
     }
 }
 
